@@ -36,6 +36,7 @@ struct Arena {
         void init(size_t bytes);
         // begin a run: releases everything from the previous run, wraps the ring if needed
         void run_begin(size_t skip_pages = 0, size_t sub = 0);
+        uint64_t budget_hits = 0; // allocations refused because the run's page budget was used up (the twin runs void their comparison then)
         size_t sub_off = 0; // byte displacement of every buffer inside its pages (address twin only; costs up to 63 bytes of guard tightness)
         void run_end();
         // allocate len bytes; align_off only for PLACE_START (offset into first page, 0..63);
